@@ -1,8 +1,272 @@
 import GceTcb.Base.Line
-/- Driver handler for stream `c19` (stub: replaced when the property's model lands). -/
-namespace GceTcb.Drive.C19
-open GceTcb
+import GceTcb.Model.PathAccess
+/-
+Driver handler for stream `c19` (field-path scanner, parser, evaluator, byte forms).
 
-def handle (_f : Fields) : String := "unimplemented"
+The driver is stateless, so every parse/eval/mask line carries the schema (`sch=`) the harness dumped
+from the real protobuf descriptors; `op=schema` additionally echoes the parsed schema in canonical
+form and evaluates `Schema.wf` on it, so that a schema the model misreads is a correspondence failure.
+
+Encodings (no spaces):
+  schema   msg|msg|…          msg = fullname!field;field;…    field = num:name:card:kind:ref
+           card = o | l | m.<keykind>      kind = protoreflect.Kind names
+  value    scalar  cls:payload   (payload decimal, or x<hex> for str/bytes)
+           message {fullname|num~value|…}   list [v,v,…]   map <keycls|key~value|…>
+  path     r:<root>/f:<num>:<name>/i:<n>/k:<cls>:<payload>
+  mask     paths=p<hex>,p<hex>,…   (the `p` prefix lets the empty path be written)
+-/
+namespace GceTcb.Drive.C19
+open GceTcb GceTcb.Path
+
+def toStr (s : String) : Str := s.toUTF8.toList.map UInt8.toNat
+def ofStr (s : Str) : String := String.ofList (s.map Char.ofNat)
+def hexOf (s : Str) : String := hexEncode (s.map UInt8.ofNat)
+def unhex (s : String) : Option Str := (hexDecode s).map (fun b => b.map UInt8.toNat)
+
+def kindNames : List (String × Kind) := [
+  ("bool", .bool), ("enum", .enum), ("int32", .int32), ("sint32", .sint32), ("uint32", .uint32),
+  ("int64", .int64), ("sint64", .sint64), ("uint64", .uint64), ("sfixed32", .sfixed32),
+  ("fixed32", .fixed32), ("float", .float), ("sfixed64", .sfixed64), ("fixed64", .fixed64),
+  ("double", .double), ("string", .string), ("bytes", .bytes), ("message", .message), ("group", .group)]
+
+def parseKind (s : String) : Option Kind := (kindNames.find? (fun p => p.1 == s)).map (·.2)
+def showKind (k : Kind) : String := ((kindNames.find? (fun p => p.2 == k)).map (·.1)).getD "?"
+
+def clsNames : List (String × VClass) := [
+  ("bool", .bool), ("i32", .i32), ("i64", .i64), ("u32", .u32), ("u64", .u64), ("f32", .f32),
+  ("f64", .f64), ("str", .str), ("bytes", .bytes), ("enum", .enum)]
+
+def parseCls (s : String) : Option VClass := (clsNames.find? (fun p => p.1 == s)).map (·.2)
+def showCls (c : VClass) : String := ((clsNames.find? (fun p => p.2 == c)).map (·.1)).getD "?"
+
+/-! ### schema -/
+
+def parseCard (s : String) : Option Card :=
+  if s == "o" then some .single
+  else if s == "l" then some .list
+  else match s.splitOn "." with
+    | ["m", k] => (parseKind k).map Card.map
+    | _ => none
+
+def showCard : Card → String
+  | .single => "o"
+  | .list => "l"
+  | .map k => "m." ++ showKind k
+
+def parseField (parent : Str) (s : String) : Option Field :=
+  match s.splitOn ":" with
+  | [num, name, card, kind, ref] => do
+    let n ← num.toNat?
+    let c ← parseCard card
+    let k ← parseKind kind
+    pure { number := n, name := toStr name, card := c, kind := k, ref := toStr ref, parent := parent }
+  | _ => none
+
+def parseMsgDesc (s : String) : Option MsgDesc :=
+  match s.splitOn "!" with
+  | [name, fields] => do
+    let fs ← (if fields == "" then some [] else (fields.splitOn ";").mapM (parseField (toStr name)))
+    pure { name := toStr name, fields := fs }
+  | _ => none
+
+def parseSchema (s : String) : Option Schema :=
+  if s == "" then some [] else (s.splitOn "|").mapM parseMsgDesc
+
+def showField (f : Field) : String :=
+  s!"{f.number}:{ofStr f.name}:{showCard f.card}:{showKind f.kind}:{ofStr f.ref}"
+
+def showMsgDesc (m : MsgDesc) : String :=
+  ofStr m.name ++ "!" ++ ";".intercalate (m.fields.map showField)
+
+def showSchema (s : Schema) : String := "|".intercalate (s.map showMsgDesc)
+
+/-! ### values -/
+
+def showPayload (s : Scalar) : String :=
+  match s.cls with
+  | .str | .bytes => "x" ++ hexOf s.str
+  | _ => toString s.num
+
+def showScalar (s : Scalar) : String := showCls s.cls ++ ":" ++ showPayload s
+
+partial def showValue : Value → String
+  | .scalar s => showScalar s
+  | .msg ty fs => "{" ++ ofStr ty ++ String.join (fs.map (fun p => s!"|{p.1}~{showValue p.2}")) ++ "}"
+  | .list xs => "[" ++ ",".intercalate (xs.map showValue) ++ "]"
+  | .map kc es => "<" ++ showCls kc ++ String.join (es.map (fun p => s!"|{showScalar p.1}~{showValue p.2}")) ++ ">"
+
+def isWordChar (c : Char) : Bool := c.isAlphanum || c == '.' || c == '_' || c == '-'
+
+def takeWord (cs : List Char) : String × List Char :=
+  (String.ofList (cs.takeWhile isWordChar), cs.dropWhile isWordChar)
+
+def mkScalar (cls : String) (payload : String) : Option Scalar := do
+  let c ← parseCls cls
+  match c with
+  | .str | .bytes =>
+    if payload.startsWith "x" then do
+      let b ← unhex (payload.drop 1).toString
+      pure ⟨c, 0, b⟩
+    else none
+  | _ => do
+    let n ← payload.toInt?
+    pure ⟨c, n, []⟩
+
+/-- scalar := word ':' word -/
+def parseScalar (cs : List Char) : Option (Scalar × List Char) :=
+  let (cls, r1) := takeWord cs
+  match r1 with
+  | ':' :: r2 =>
+    let (pl, r3) := takeWord r2
+    (mkScalar cls pl).map (fun s => (s, r3))
+  | _ => none
+
+mutual
+partial def parseValue (cs : List Char) : Option (Value × List Char) :=
+  match cs with
+  | '{' :: r =>
+    let (name, r1) := takeWord r
+    (parseMsgFields r1 []).map (fun p => (.msg (toStr name) p.1, p.2))
+  | '[' :: ']' :: r => some (.list [], r)
+  | '[' :: r => (parseListElems r []).map (fun p => (.list p.1, p.2))
+  | '<' :: r =>
+    let (cls, r1) := takeWord r
+    match parseCls cls with
+    | none => none
+    | some kc => (parseMapEntries r1 []).map (fun p => (.map kc p.1, p.2))
+  | _ => (parseScalar cs).map (fun p => (.scalar p.1, p.2))
+
+partial def parseMsgFields (cs : List Char) (acc : List (Nat × Value)) : Option (List (Nat × Value) × List Char) :=
+  match cs with
+  | '}' :: r => some (acc.reverse, r)
+  | '|' :: r =>
+    let (num, r1) := takeWord r
+    match num.toNat?, r1 with
+    | some n, '~' :: r2 =>
+      match parseValue r2 with
+      | some (v, r3) => parseMsgFields r3 ((n, v) :: acc)
+      | none => none
+    | _, _ => none
+  | _ => none
+
+partial def parseListElems (cs : List Char) (acc : List Value) : Option (List Value × List Char) :=
+  match parseValue cs with
+  | some (v, ',' :: r) => parseListElems r (v :: acc)
+  | some (v, ']' :: r) => some ((v :: acc).reverse, r)
+  | _ => none
+
+partial def parseMapEntries (cs : List Char) (acc : List (Scalar × Value)) :
+    Option (List (Scalar × Value) × List Char) :=
+  match cs with
+  | '>' :: r => some (acc.reverse, r)
+  | '|' :: r =>
+    match parseScalar r with
+    | some (k, '~' :: r2) =>
+      match parseValue r2 with
+      | some (v, r3) => parseMapEntries r3 ((k, v) :: acc)
+      | none => none
+    | _ => none
+  | _ => none
+end
+
+def parseValueAll (s : String) : Option Value :=
+  match parseValue s.toList with
+  | some (v, []) => some v
+  | _ => none
+
+/-! ### paths and tokens -/
+
+def showStep : Step → String
+  | .root n => "r:" ++ ofStr n
+  | .field fd => s!"f:{fd.number}:{ofStr fd.name}"
+  | .listIndex i => s!"i:{i}"
+  | .mapIndex k => "k:" ++ showScalar k
+  | .anyExpand n => "a:" ++ ofStr n
+  | .unknown => "u"
+
+def showPath (p : List Step) : String := "/".intercalate (p.map showStep)
+
+def tokKindNum : TokKind → Nat
+  | .ident => 0 | .intlit => 1 | .strlit => 2 | .dot => 3 | .oparen => 4 | .cparen => 5
+  | .obrack => 6 | .cbrack => 7 | .illegal => 8 | .eof => 9
+
+def showTok (p : Token × Nat) : String :=
+  let t := p.1
+  let text := match t.kind with
+    | .ident | .intlit | .strlit => hexOf t.text
+    | _ => ""
+  s!"{tokKindNum t.kind}:{t.pos}:{p.2}:{text}"
+
+def parseForm (s : String) : Option BytesForm :=
+  match s with
+  | "raw" => some .raw
+  | "hex" => some .hex
+  | "guid" => some .hexGuidify
+  | "base64" => some .base64
+  | "auto" => some .auto
+  | _ => none
+
+def outcomeTag {α : Type} : Outcome α → String
+  | .ok _ => "ok"
+  | .err _ => "reject"
+  | .panic s => "panic=" ++ s
+
+def handle (f : Fields) : String :=
+  match f.get "op" with
+  | "schema" =>
+    match parseSchema (f.get "sch") with
+    | none => "bad-schema"
+    | some sch =>
+      let nf := (sch.map (fun m => m.fields.length)).foldl (· + ·) 0
+      s!"ok wf={if sch.wf then 1 else 0} msgs={sch.length} fields={nf} echo={showSchema sch}"
+  | "scan" =>
+    match unhex (f.get "path") with
+    | none => "bad-op"
+    | some buf =>
+      match scanAll buf (buf.length + 2) 0 [] with
+      | .ok toks => "ok toks=" ++ ",".intercalate (toks.map showTok)
+      | r => outcomeTag r
+  | "parse" =>
+    match parseSchema (f.get "sch"), unhex (f.get "path") with
+    | some sch, some path =>
+      match parsePath sch (toStr (f.get "root")) path with
+      | .ok p => "ok path=" ++ showPath p
+      | r => outcomeTag r
+    | _, _ => "bad-op"
+  | "eval" =>
+    match parseSchema (f.get "sch"), unhex (f.get "path"), parseValueAll (f.get "msg") with
+    | some sch, some path, some v =>
+      let root := toStr (f.get "root")
+      let typed := s!"typed={if typedB sch root v then 1 else 0} "
+      match parsePath sch root path with
+      | .ok p =>
+        let r := pathValues sch p v
+        let w := walk p v
+        let same : Bool := match r, w with
+          | .ok a, .ok b => a.map showValue == b.map showValue
+          | .err a, .err b => a == b
+          | _, _ => false
+        let spec := s!" spec={if same then 1 else 0}"
+        match r with
+        | .ok vs => typed ++ s!"ok n={vs.length} v={(vs.getLast?.map showValue).getD "none"}" ++ spec
+        | .err _ => typed ++ "reject" ++ spec
+        | .panic s => typed ++ "panic=" ++ s ++ spec
+      | .err _ => typed ++ "reject-parse"
+      | .panic s => typed ++ "panic=" ++ s
+    | _, _, _ => "bad-op"
+  | "bytes" =>
+    match parseForm (f.get "form"), unhex (f.get "b") with
+    | some form, some b => "ok out=" ++ hexOf (writeBytesForm b form (f.bool "term"))
+    | _, _ => "bad-op"
+  | "mask" =>
+    match parseSchema (f.get "sch"), parseValueAll (f.get "msg"), parseForm (f.get "form"),
+        (f.list "paths").mapM (fun s => if s.startsWith "p" then unhex (s.drop 1).toString else none) with
+    | some sch, some v, some form, some paths =>
+      match maskPaths sch (toStr (f.get "root")) v form (f.bool "term") paths 0 (some []) with
+      | .ok (some out) => "ok out=" ++ hexOf out
+      | .ok none => "unmodelled"
+      | r => outcomeTag r
+    | _, _, _, _ => "bad-op"
+  | _ => "bad-op"
 
 end GceTcb.Drive.C19
